@@ -11,7 +11,7 @@ ID = 'C02'
 
 MANIFEST = {
     'engine': 'symx',
-    'text': 'Bounded symbolic model checking of the real kernel source with symbolic vectors AND a symbolic injective relabelling map of one side at a time (both-side invariance follows by composing the two): z3 shows f(Y, g(X), c) == f(Y, X, c) and f(h(Y), X, c) == f(Y, X, c) for c in {False, True}; a second obligation shows that with correction on the result is the corrected formula whenever the vectors differ somewhere and the entropy exactly when they are identical (so equal code sums alone never trigger the shortcut).',
+    'text': 'Bounded symbolic model checking of the real kernel source with symbolic vectors AND a symbolic injective relabelling map of one side at a time (both-side invariance follows by composing the two): z3 shows f(Y, g(X), c) == f(Y, X, c) and f(h(Y), X, c) == f(Y, X, c) for c in {False, True}; a second obligation shows that with correction on the result is the corrected formula whenever the vectors differ somewhere and the entropy exactly when they are identical (so equal code sums alone never trigger the shortcut). The relabelling obligations are also run with sparse target codes {0, 3, 1000, 70000} (offsets and gaps far larger than the vector length).',
     'note': 'Exact reals (float32 rounding outside); numba/numpy stand-ins; bounds n<=3 with codes<3 mapped into <4 for the relabelling obligations, n<=4 codes<3 (thorough n<=5) for the shortcut obligation; counterexamples are replayed on the compiled kernel.',
     'technique': 'symbolic execution of the real Python source with z3; relabelling map = K symbolic ints under Distinct',
 }
